@@ -10,8 +10,8 @@ def _c14_case(c):
 
 CONFIG = {
     "properties_file": "Properties/C14.v",
-    "proof_files": ["Base/Prelude.v", "Proofs/Referrers.v"],
-    "model_files": ["Model/Referrers.v"],
+    "proof_files": ["Base/Prelude.v", "Proofs/Referrers.v", "Proofs/Merge.v", "Proofs/MergeLin.v", "Proofs/MergeThm.v"],
+    "model_files": ["Model/Referrers.v", "Model/Merge.v"],
     "extract": "XC14.v",
     "ml_main": "c14_main.ml",
     "harness": "c14",
